@@ -12,9 +12,34 @@ Record snap := SN {
   sn_rings : list Z; sn_steals : list Z;
   sn_final : bool }.            (* taken at "pool.dtor.end" (true) or at a quiescent point (false) *)
 
+(* Compact trace encoding (Coq parses one numeral per event much faster than a constructor term):
+   z = (((tid * 64 + code) * 1024 + (a+2)) * 1024 + (b+2)) * 1024 + (c+2),  fields a b c in [-2, 1021]; codes = positions in
+   props/pool_common.py CODES. *)
+Definition decode (z : Z) : nat * event :=
+  let c := z mod 1024 - 2 in
+  let z1 := z / 1024 in
+  let b := z1 mod 1024 - 2 in
+  let z2 := z1 / 1024 in
+  let a := z2 mod 1024 - 2 in
+  let z3 := z2 / 1024 in
+  let code := z3 mod 64 in
+  let tid := Z.to_nat (z3 / 64) in
+  let nzb := negb (a =? 0) in
+  (tid,
+   match code with
+   | 0 => EGen a | 1 => ELoadNumThreads nzb b | 2 => EAdd a b | 3 => ESub a b | 4 => EEnqCentral a b
+   | 5 => ERingPushFail a | 6 => ERingPushEnd a | 7 => EPushBatch a b | 8 => EStealPush a (negb (b =? 0))
+   | 9 => ELoadNumRings a b | 10 => EInline a | 11 => EPopCentral a b | 12 => EPopRing a b c | 13 => EPopSteal a b c
+   | 14 => EBodyBegin a | 15 => EBodyEnd a | 16 => EWorkerBegin a | 17 => EWorkerEnd a
+   | 18 => EResizeBegin a | 19 => EStopAll | 20 => EWakeAll | 21 => ECentralDone a | 22 => EJoinBegin | 23 => EJoinDone
+   | 24 => EDrainRing a b | 25 => ERingDone a | 26 => EDrainSteal a b | 27 => EStealDone a
+   | 28 => EStoreNumRings a | 29 => EStoreNumSteal a | 30 => EStoreNumThreads a | 31 => EThreadsStarted a
+   | 32 => EResizeEnd | 33 => EDtorBegin | _ => EDtorEnd
+   end).
+
 Record pcase := PC {
   c_n0 : Z; c_rcap : Z; c_scap : Z; c_share : Z;
-  c_trace : list (nat * event);
+  c_enc : list Z;               (* encoded trace *)
   c_counts : list Z;            (* invocations per task id *)
   c_snaps : list snap;
   c_hang : Z;                   (* task sets whose outstanding count was not zero at the final quiescent point *)
@@ -40,6 +65,11 @@ Definition snap_kind (sn : snap) : Z :=   (* which tier holds the stranded task:
 (* result: [accepted; first rejected index; snapshots agree; v01; v03; v08; stale kind; leaked at the end; stranded kind]
    v = 0 holds (and model agrees), 1 model and implementation disagree but the property holds on the implementation's output,
        2 property fails outside the known domain, 3 inconclusive (budget / deadlock), 4 property fails inside the known domain *)
+Definition c_trace (c : pcase) : list (nat * event) := map decode (c_enc c).
+
+Definition snap_empty (sn : snap) : bool :=
+  (sn_central sn =? 0) && forallb (fun n => n =? 0) (sn_rings sn) && forallb (fun n => n =? 0) (sn_steals sn).
+
 Definition judge_pool (c : pcase) : list Z :=
   let s0 := init (c_share c) (c_n0 c) in
   let '(sEnd, k, ok, stale) := run_trace (c_rcap c) (c_scap c) (c_share c) s0 (c_trace c) 0 0 in
@@ -57,8 +87,8 @@ Definition judge_pool (c : pcase) : list Z :=
   let v03 := if dup then 2
              else if stranded then (if ok && negb (stale =? 0) then 4 else 2)
              else if negb done_ then 3 else if negb once then 2 else if agree then 0 else 1 in
-  (* C08: at every snapshot the counter must be zero; known domain: the model's ghost [leaked] explains the whole excess *)
-  let bad08 := filter (fun sn => negb (sn_wr sn =? 0)) (c_snaps c) in
+  (* C08: at every snapshot with all tiers empty (all submitted work has finished) the counter must be zero; known domain: the model's ghost [leaked] explains the whole excess *)
+  let bad08 := filter (fun sn => snap_empty sn && negb (sn_wr sn =? 0)) (c_snaps c) in
   let explained := forallb (fun sn => match at_ sn with Some s => (0 <? leaked s) && (sn_wr sn =? leaked s) && quiescent s | None => false end) bad08 in
   let v08 := match bad08 with
              | [] => if negb done_ then 3 else if agree then 0 else 1
